@@ -7,6 +7,7 @@
 //! trusted: //@oneof: the claim-deadline statement is accepted in two shapes, `E.iter().map(|h| V).min()` (R6 loop, the shape in the tree) and `E.iter().min()/.max().map(|h| V)` (an element picked by the element type's Ord, which is not modelled: iter_pick_by_ord returns some element of E); exactly the shape found is verified against the same contract
 //! trusted: R15 (deep slice): inbound_payment::verify decrypts and authenticates the payment secret (ChaCha20/HMAC, outside the verifier); the unit extracts its two final tests (total_msat against the amount and the expiry against the highest seen block time) verbatim as a function of the decoded (min_amt_msat, expiry); decoding those two numbers from the decrypted bytes is the subject of unit u04d (the real decoding statements against the byte layout) together with the Kani harness h_info_bytes (construct_info_bytes is the inverse of that layout); FinalOnionHopData skeleton
 //! trusted: R15: claim_payment_internal: the unit extracts the amount re-check (the loop over the parts and the two abort tests, conditions captured) verbatim as a function of the part list; begin_claiming_payment before it and the per-channel claims after it are dropped and not claimed; R6: `for htlc in sources.iter()` becomes an index loop
+//! trusted: R15 (deep slice): ClaimablePayments::begin_claiming_payment: the amount_msat expression of the ClaimingPayment it records (R6: `.iter().map(|s| V).sum()` as an index loop with an overflow obligation)
 //! trusted: R15 (deep slice): ClaimablePayments::begin_claiming_payment: the custom-TLV refusal test verbatim (the `.iter().any(|(typ, _)| P)` becomes an index loop carrying P, R6)
 //! assume: representation invariant of an accumulating payment: the intended sum already held is < MAX_VALUE_MSAT, every part's intended value < MAX_VALUE_MSAT, the sum of received values fits u64; cltv_expiry >= HTLC_FAIL_BACK_BUFFER (implied by acceptance)
 //! trusted: assume_specification for core::cmp::max / core::cmp::min (std definitions): present in every unit so that a change that introduces them is verified instead of being rejected by the tool
@@ -342,6 +343,39 @@ pub proof fn lemma_min_expiry(s: Seq<ClaimableHTLC>)
     proof { lemma_min_expiry(htlcs@); }
 //@end
 
+// ---- the amount PaymentClaimed reports: the sum of what the parts actually delivered (R15 slice of ClaimablePayments::begin_claiming_payment) ----
+pub struct ClaimablePaymentStub { pub htlcs: Vec<ClaimableHTLC> }
+pub open spec fn parts_of_claimable(s: Seq<ClaimableHTLC>) -> Seq<MppPart> { Seq::new(s.len(), |k: int| s[k].mpp_part) }
+//@extract lightning/src/ln/channelmanager.rs :: impl ClaimablePayments :: fn begin_claiming_payment
+//@slice R15
+    ClaimingPayment { amount_msat: payment.htlcs.iter().map(|$s:ident| $v:seq).sum(), payment_purpose:
+//@with
+    fn amount_reported_as_claimed(payment: &ClaimablePaymentStub) -> u64 {
+        // R6: payment.htlcs.iter().map(|s| V).sum()
+        let mut __sum: u64 = 0; let mut __i: usize = 0;
+        while __i < payment.htlcs.len()
+            invariant __i <= payment.htlcs@.len(), __sum as int == value_sum(parts_of_claimable(payment.htlcs@).take(__i as int)), value_sum(parts_of_claimable(payment.htlcs@)) <= u64::MAX,
+            decreases payment.htlcs@.len() - __i
+        {
+            proof { lemma_isum_step(parts_of_claimable(payment.htlcs@), __i as int); lemma_isum_mono(parts_of_claimable(payment.htlcs@), __i as int + 1); }
+            let $s = &payment.htlcs[__i];
+            let __v: u64 = $v;
+            __sum = __sum + __v;
+            __i = __i + 1;
+        }
+        proof { assert(parts_of_claimable(payment.htlcs@).take(payment.htlcs@.len() as int) =~= parts_of_claimable(payment.htlcs@)); }
+        __sum
+    }
+//@ret r
+//@requires
+    value_sum(parts_of_claimable(payment.htlcs@)) <= u64::MAX,
+//@ensures P C04 the-amount-reported-as-claimed-is-the-sum-of-what-the-parts-actually-delivered
+    r as int == value_sum(parts_of_claimable(payment.htlcs@)),
+//@mutant claimed_amount_sums_what_the_sender_intended
+    |source| source.mpp_part.value
+//@with
+    |source| source.mpp_part.sender_intended_value
+//@end
 // ---- claiming: all parts or none (R15 slice of ChannelManager::claim_payment_internal) ----
 // the other value in scope at the re-check: ClaimingPayment::amount_msat is computed by begin_claiming_payment as the sum of the parts it hands over
 pub struct ClaimingPayment { pub amount_msat: u64 }
